@@ -46,7 +46,8 @@ func c01Run(c *mon.Ctx, aText, bText string, o OptSet) (string, map[string]any) 
 	c.Input("a", aText)
 	c.Input("b", bText)
 	c.Input("options", o.Name)
-	A, B := ReadJ(aText), ReadJ(bText)
+	mkA := operand(c, aText, "a", 0.08)
+	A, B := mkA(), ReadJ(bText)
 	b := Plain(B)
 	if c.R.Chance(0.1) && len(o.Keys) == 0 {
 		if P, ok := viaPatch(c.R, b); ok {
